@@ -213,9 +213,12 @@ Section WithRot.
   (* ---- cache coherence over histories: every read returns the centroids of the CURRENT attributes ---- *)
   Definition bm_coherent (b : blockmodel) : Prop := bm_cache b = None \/ bm_cache b = Some (bm_compute rotm b).
 
-  Lemma bm_step_coherent b op : bm_coherent b -> bm_coherent (fst (bm_step rotm b op)).
+  (* API calls: everything except a successful in-place write into the array the `origin` getter handed out *)
+  Definition bm_api (op : bm_op) : Prop := match op with BmOriginX false _ => False | _ => True end.
+
+  Lemma bm_step_coherent b op : bm_api op -> bm_coherent b -> bm_coherent (fst (bm_step rotm b op)).
   Proof.
-    intros H. destruct op; simpl; try (left; reflexivity).
+    intros Ha H. destruct op as [|o|a|d|d|d|[|] x]; simpl; try (left; reflexivity); try exact H; try contradiction.
     destruct (bm_cache b) eqn:E; simpl; [exact H|]. right. reflexivity.
   Qed.
 
@@ -248,28 +251,31 @@ Section WithRot.
     rewrite IH. destruct out; reflexivity.
   Qed.
 
-  Lemma bm_attrs_after_coherent b ops : bm_coherent b -> bm_coherent (bm_attrs_after b ops).
+  Lemma bm_attrs_after_coherent b ops : Forall bm_api ops -> bm_coherent b -> bm_coherent (bm_attrs_after b ops).
   Proof.
-    revert b; induction ops as [|op r IH]; intros b H; simpl; [exact H|]. apply IH. apply bm_step_coherent. exact H.
+    revert b; induction ops as [|op r IH]; intros b Ha H; simpl; [exact H|]. inversion Ha; subst.
+    apply IH; [assumption|]. apply bm_step_coherent; assumption.
   Qed.
 
   (* after any history of setter calls and reads, a read returns exactly the centroids computed from the
      attributes as they are now *)
-  Lemma bm_history_read b ops : bm_coherent b ->
+  Lemma bm_history_read b ops : Forall bm_api ops -> bm_coherent b ->
     snd (bm_run rotm b (ops ++ [BmRead]))
     = snd (bm_run rotm b ops) ++ [bm_compute rotm (bm_attrs_after b ops)].
   Proof.
-    intros H. rewrite bm_run_app. f_equal.
-    pose proof (bm_attrs_after_coherent b ops H) as Hc.
+    intros Ha H. rewrite bm_run_app. f_equal.
+    pose proof (bm_attrs_after_coherent b ops Ha H) as Hc.
     set (b' := bm_attrs_after b ops) in *.
     unfold bm_run, bm_step. destruct Hc as [Hc|Hc]; rewrite Hc; reflexivity.
   Qed.
 
   Definition g_coherent (g : grid2d) : Prop := g_cache g = None \/ g_cache g = Some (g_compute rotm dipm g).
 
-  Lemma g_step_coherent g op : g_coherent g -> g_coherent (fst (g_step rotm dipm g op)).
+  Definition g_api (op : g_op) : Prop := match op with GOriginX false _ => False | _ => True end.
+
+  Lemma g_step_coherent g op : g_api op -> g_coherent g -> g_coherent (fst (g_step rotm dipm g op)).
   Proof.
-    intros H. destruct op; unfold g_step; cbn; try (left; reflexivity).
+    intros Ha H. destruct op as [|o|a|a|v|n|n|q|q|[|] x]; unfold g_step; cbn; try (left; reflexivity); try exact H; try contradiction.
     destruct (g_cache g) eqn:E; cbn; [exact H|]. right.
     destruct g; reflexivity.
   Qed.
@@ -290,17 +296,18 @@ Section WithRot.
     rewrite IH. destruct out; reflexivity.
   Qed.
 
-  Lemma g_attrs_after_coherent g ops : g_coherent g -> g_coherent (g_attrs_after g ops).
+  Lemma g_attrs_after_coherent g ops : Forall g_api ops -> g_coherent g -> g_coherent (g_attrs_after g ops).
   Proof.
-    revert g; induction ops as [|op r IH]; intros g H; simpl; [exact H|]. apply IH. apply g_step_coherent. exact H.
+    revert g; induction ops as [|op r IH]; intros g Ha H; simpl; [exact H|]. inversion Ha; subst.
+    apply IH; [assumption|]. apply g_step_coherent; assumption.
   Qed.
 
-  Lemma g_history_read g ops : g_coherent g ->
+  Lemma g_history_read g ops : Forall g_api ops -> g_coherent g ->
     snd (g_run rotm dipm g (ops ++ [GRead]))
     = snd (g_run rotm dipm g ops) ++ [g_compute rotm dipm (g_attrs_after g ops)].
   Proof.
-    intros H. rewrite g_run_app. f_equal.
-    pose proof (g_attrs_after_coherent g ops H) as Hc.
+    intros Ha H. rewrite g_run_app. f_equal.
+    pose proof (g_attrs_after_coherent g ops Ha H) as Hc.
     set (g' := g_attrs_after g ops) in *.
     unfold g_run. unfold g_step. destruct Hc as [Hc|Hc]; rewrite Hc; reflexivity.
   Qed.
